@@ -389,10 +389,25 @@ def _r204(ctx: Ctx, gmi, tables) -> None:
         return fn, outs
 
     # send_code_data for a 2-D and a 3-D code, with and without deformation, both pictures
-    for gui_name, dims in (('Toric 2D', 2), ('Rotated Planar 3D', 3)):
-        for deformation in ('None', 'XZZX'):
-            for rot in (False, True):
-                req = {'Lx': 3, 'Ly': 4, 'Lz': 5, 'code_name': gui_name, 'code_deformation_name': deformation,
+    # ... and at the two ends of what the client can ask for: the "Lattice size" menu of main.js (read as data) with
+    # and without "Coprime dimensions" (Lx = L + 1)
+    import os
+    import re
+    js = os.path.join(str(ctx.model.root), 'panqec', 'gui', 'js', 'main.js')
+    ctx.need(os.path.exists(js), 'R20.4', 'panqec/gui/js/main.js', 'main.js not found')
+    mm = re.search(r'\.add\(\s*params\s*,\s*"L"\s*,\s*\{([^}]*)\}', open(js).read())
+    ctx.need(mm is not None, 'R20.4', 'panqec/gui/js/main.js', 'the "L" menu of the lattice size was not found')
+    menu = sorted({int(x) for x in re.findall(r':\s*(\d+)', mm.group(1))})
+    ctx.need(len(menu) >= 2, 'R20.4', 'panqec/gui/js/main.js', f'lattice size menu {menu}')
+    ctx.extra['lattice_size_menu'] = menu
+    sizes = [(3, 4, 5), (menu[-1] + 1, menu[-1], menu[-1]), (menu[0], menu[0], menu[0])]
+    for gui_name, dims, deformation, rot, (Lx_, Ly_, Lz_) in (
+            [(g, d, de, r, sizes[0]) for g, d in (('Toric 2D', 2), ('Rotated Planar 3D', 3)) for de in ('None', 'XZZX')
+             for r in (False, True)]
+            + [(g, d, 'None', False, sz) for g, d in (('Toric 2D', 2), ('Rotated Planar 3D', 3)) for sz in sizes[1:]]):
+        if True:
+            if True:
+                req = {'Lx': Lx_, 'Ly': Ly_, 'Lz': Lz_, 'code_name': gui_name, 'code_deformation_name': deformation,
                        'rotated_picture': rot}
                 fn, outs = run_handler('send_code_data', req)
                 site = site_of(gmi, fn)
@@ -407,7 +422,7 @@ def _r204(ctx: Ctx, gmi, tables) -> None:
                         v, ev = o.value
                         dname = None if deformation == 'None' else deformation
                         cls = codes[gui_name].ci.name
-                        want_args = [3, 4] if dims == 2 else [3, 4, 5]
+                        want_args = [Lx_, Ly_] if dims == 2 else [Lx_, Ly_, Lz_]
                         ce = [e for e in ev if e[0] == 'code']
                         if len(ce) != 1 or ce[0][1] != cls or ce[0][2] != want_args:
                             bad = f'code instantiated as {ce!r}, expected {cls}{tuple(want_args)}'
@@ -443,7 +458,7 @@ def _r204(ctx: Ctx, gmi, tables) -> None:
                                     bad = f"response['{k}'] = {g_!r}, expected {w!r}"
                 ctx.ob('R20.4', site, f'send_code_data("{gui_name}", deformation={deformation}, rotated={rot}): H/logicals of '
                                       f'the same instance, index order, requested picture', bad is None, bad or '',
-                       key=f'send_code_data|{gui_name}|{deformation}|{rot}')
+                       key=f'send_code_data|{gui_name}|{deformation}|{rot}' + ('' if (Lx_, Ly_, Lz_) == sizes[0] else f'|{Lx_}x{Ly_}x{Lz_}'))
 
     # request histories: the answer to a request must not depend on what the same server answered before
     base_req = {'Lx': 3, 'Ly': 4, 'Lz': 5, 'code_name': 'Toric 2D', 'rotated_picture': False}
